@@ -260,7 +260,68 @@ def guard_to_continue(src, relpath):
         yield ("guard-continue:%s" % relpath, relpath, ast.unparse(ast.fix_missing_locations(tree)))
 
 
-GENERATORS = [alpha_rename, commute, alias_temps, swap_independent, early_exit, insert_noise, reverse_elif, guard_to_continue]
+def flip_ordered(src, relpath):
+    """a < b  ->  b > a (and <=, >, >=): the same test with the operands exchanged.  One variant per function (so that a false
+    alarm can be attributed), plus nothing for functions without ordered comparisons."""
+    flip = {ast.Lt: ast.Gt, ast.Gt: ast.Lt, ast.LtE: ast.GtE, ast.GtE: ast.LtE}
+    tree0 = ast.parse(src)
+    for qual, _ in _funcs(tree0):
+        tree = ast.parse(src)
+        target = dict(_funcs(tree))[qual]
+        changed = 0
+        for n in ast.walk(target):
+            if isinstance(n, ast.Compare) and len(n.ops) == 1 and type(n.ops[0]) in flip:
+                n.left, n.comparators[0] = n.comparators[0], n.left
+                n.ops = [flip[type(n.ops[0])]()]
+                changed += 1
+        if changed:
+            yield ("flipcmp:%s:%s" % (relpath, qual), relpath, ast.unparse(ast.fix_missing_locations(tree)))
+
+
+def not_is(src, relpath):
+    """x is not None -> not x is None ; x != y -> not x == y is NOT applied (numpy arrays); only identity tests."""
+    tree = ast.parse(src)
+    changed = 0
+
+    class T(ast.NodeTransformer):
+        def visit_Compare(self, n):
+            nonlocal changed
+            self.generic_visit(n)
+            if len(n.ops) == 1 and isinstance(n.ops[0], ast.IsNot):
+                changed += 1
+                return ast.UnaryOp(op=ast.Not(), operand=ast.Compare(left=n.left, ops=[ast.Is()], comparators=n.comparators))
+            return n
+    T().visit(tree)
+    if changed:
+        yield ("notis:%s" % relpath, relpath, ast.unparse(ast.fix_missing_locations(tree)))
+
+
+def swap_pure_conjuncts(src, relpath):
+    """`a and b` -> `b and a` when both operands are side-effect-free comparisons of names/attributes/constants that cannot raise
+    (identity tests, comparisons of plain names and constants): evaluation order does not matter."""
+    tree = ast.parse(src)
+    changed = 0
+
+    def pure(e):
+        if isinstance(e, ast.Compare) and len(e.ops) == 1:
+            return all(isinstance(x, (ast.Name, ast.Constant)) for x in [e.left] + e.comparators)
+        return isinstance(e, ast.Name)
+
+    class T(ast.NodeTransformer):
+        def visit_BoolOp(self, n):
+            nonlocal changed
+            self.generic_visit(n)
+            if len(n.values) == 2 and all(pure(v) for v in n.values):
+                n.values = [n.values[1], n.values[0]]
+                changed += 1
+            return n
+    T().visit(tree)
+    if changed:
+        yield ("swapconj:%s" % relpath, relpath, ast.unparse(ast.fix_missing_locations(tree)))
+
+
+GENERATORS = [alpha_rename, commute, alias_temps, swap_independent, early_exit, insert_noise, reverse_elif, guard_to_continue,
+              flip_ordered, not_is, swap_pure_conjuncts]
 
 
 def all_benign(root):
